@@ -16,29 +16,29 @@ Definition second_wire : bytes := fst (fst (serve_one ok d0 cfg0 q_get second)).
 
 Ltac wf_prog := repeat constructor; cbn [hop_wf rop_wf]; repeat split; try reflexivity; repeat constructor.
 
-(* SetBodyStream(r, -1) then Header.Set("Content-Length", "5") *)
+(* fixed in /repo 6f630cd: SetBodyStream(r, -1) then Header.Set("Content-Length", "5") now drops the chunked marker *)
 Definition prog_manual_cl : list hop :=
   [HSetBodyStream (-1) (mkStream SKReader [s2b "hello"] false); HHdr (ROSet (s2b "Content-Length") (s2b "5"))].
-Lemma refuted_manual_cl :
-  Forall hop_wf prog_manual_cl /\ raw_free false prog_manual_cl = true /\ w_status (want_of prog_manual_cl) = 200%Z /\
+Lemma fixed_manual_cl :
+  Forall hop_wf prog_manual_cl /\ guard MGet (finished cfg0 q_get prog_manual_cl) /\
   exists wire, serve_one ok d0 cfg0 q_get prog_manual_cl = (wire, WrOk, false) /\
-    values_of "content-length" (match head_parse wire with Some (_, fs, _) => fs | None => [] end) = [s2b "5"] /\
-    values_of "transfer-encoding" (match head_parse wire with Some (_, fs, _) => fs | None => [] end) = [s2b "chunked"] /\
-    resp_parse MGet wire = None.
+    values_of "transfer-encoding" (match head_parse wire with Some (_, fs, _) => fs | None => [] end) = [] /\
+    option_map (fun p => (p_body p, p_rest p)) (resp_parse MGet wire) = Some (s2b "hello", []).
 Proof.
-  split; [wf_prog|]. split; [reflexivity|]. split; [reflexivity|].
-  eexists. split; [vm_compute; reflexivity|]. vm_compute. repeat split; reflexivity.
+  split; [wf_prog|]. split.
+  - split; [reflexivity|]. intros s E _ _. vm_compute in E. injection E as <-. vm_compute. split; [discriminate|reflexivity].
+  - eexists. split; [vm_compute; reflexivity|]. vm_compute. split; reflexivity.
 Qed.
 
 (* Response.SkipBody = true on the answer to a GET *)
 Definition prog_skipbody : list hop := [HSetBody (s2b "hello"); HSkipBody true].
 Lemma refuted_skipbody :
-  Forall hop_wf prog_skipbody /\ raw_free false prog_skipbody = true /\ w_status (want_of prog_skipbody) = 200%Z /\
+  Forall hop_wf prog_skipbody /\ w_status (want_of prog_skipbody) = 200%Z /\
   exists wire, serve_one ok d0 cfg0 q_get prog_skipbody = (wire, WrOk, false) /\
     resp_parse MGet wire = None /\
     option_map p_body (resp_parse MGet (wire ++ second_wire)) = Some (s2b "HTTP/").
 Proof.
-  split; [wf_prog|]. split; [reflexivity|]. split; [reflexivity|].
+  split; [wf_prog|]. split; [reflexivity|].
   eexists. split; [vm_compute; reflexivity|]. vm_compute. repeat split; reflexivity.
 Qed.
 
@@ -46,25 +46,21 @@ Qed.
 Definition prog_length_lost : list hop :=
   [HHdr (ROSetStatusCode 304); HSetBodyStream 0 (mkStream SKReader [] false); HHdr (ROSetStatusCode 200)].
 Lemma refuted_length_lost :
-  Forall hop_wf prog_length_lost /\ raw_free false prog_length_lost = true /\ w_status (want_of prog_length_lost) = 200%Z /\
+  Forall hop_wf prog_length_lost /\ w_status (want_of prog_length_lost) = 200%Z /\
   exists wire, serve_one ok d0 cfg0 q_get prog_length_lost = (wire, WrOk, false) /\
     option_map (fun p => (p_until_close p, beq (p_body p) second_wire)) (resp_parse MGet (wire ++ second_wire)) = Some (true, true).
 Proof.
-  split; [wf_prog|]. split; [reflexivity|]. split; [reflexivity|].
+  split; [wf_prog|]. split; [reflexivity|].
   eexists. split; [vm_compute; reflexivity|]. vm_compute. reflexivity.
 Qed.
 
-(* SetBodyRaw("XYZ"); AppendBody("d") *)
+(* fixed in /repo 8762a11: SetBodyRaw("XYZ"); AppendBody("d") now sends "XYZd" *)
 Definition prog_raw_append : list hop := [HSetBodyRaw (s2b "XYZ"); HAppendBody (s2b "d")].
-Lemma refuted_raw_append :
-  Forall hop_wf prog_raw_append /\ guard MGet (finished cfg0 q_get prog_raw_append) /\
+Lemma fixed_raw_append :
   want_data (want_of prog_raw_append) = s2b "XYZd" /\
   exists wire, serve_one ok d0 cfg0 q_get prog_raw_append = (wire, WrOk, false) /\
-    option_map p_body (resp_parse MGet wire) = Some (s2b "d").
-Proof.
-  split; [wf_prog|]. split; [split; [reflexivity|intros s E; discriminate E]|]. split; [reflexivity|].
-  eexists. split; [vm_compute; reflexivity|]. vm_compute. reflexivity.
-Qed.
+    option_map p_body (resp_parse MGet wire) = Some (s2b "XYZd").
+Proof. split; [reflexivity|]. eexists. split; [vm_compute; reflexivity|]. vm_compute. reflexivity. Qed.
 
 (* SetBodyStream(bytes.NewReader(20 bytes), 5): the WriteTo copy is not limited *)
 Definition twenty : bytes := s2b "01234567890123456789".
